@@ -14,7 +14,7 @@ import re
 from harness import batch, checklib, tlcrun
 
 CLAUSES = {
-    "C01": ["C01_range", "C01_converge", "C01_fixpoint", "C01_fresh", "C01_period", "C01_set"],
+    "C01": ["C01_range", "C01_converge", "C01_fixpoint", "C01_fresh", "C01_period", "C01_set", "C01_young"],
     "C02": ["C02_complete", "C02_opdone", "C02_stays"],
     "C03": ["C03_first", "C03_notearly", "C03_notdead", "C03_prompt", "C03_kids", "C03_stopsig"],
     "C04": ["C04_list", "C04_count", "C04_owned", "C04_status"],
